@@ -4,7 +4,7 @@ import json, os, subprocess
 HERE = os.path.dirname(os.path.abspath(__file__))
 
 CHECKS = {
- 'C01': ('syntax-directed composition of all quote! templates (top-down parse with hole markers), optional-hole guard analysis, core-API arity table, binder/use scope analysis, impl-header provenance',
+ 'C01': ('syntax-directed composition of all quote! templates (top-down parse with hole markers), optional-hole guard analysis, core-API arity table, binder/use scope analysis, impl-header provenance, member provenance of every self.#m access (declared field list), loop-scope analysis of accumulators',
          'Decides, for every path of the generator (hence every input), that the emitted token trees are well-formed items: each template parses in the category of the position it lands in, no possibly-None hole changes arity, every derived identifier used as a variable is bound under implied guards, every impl header reproduces the type\'s generics. It does not run rustc on generated programs: type/borrow errors that depend on user types are out of reach.', '§6 C01'),
  'C04': ('lint over the generated-code model of the Ord/PartialOrd enum handlers: no unsafe/pointer/cast (layout-blind), discriminant match table provenance, counter idiom of the discriminant provider, dominance of field comparison by discriminant equality',
          'Shape of the cross-variant comparison for all enums: safe code only, compared integers come from a match with one arm per variant carrying that variant\'s declared discriminant (explicit literal, else previous+1 from 0), fields compared only under discriminant equality.', '§6 C04'),
@@ -30,9 +30,9 @@ CHECKS.update({
 })
 
 CHECKS.update({
- 'C02': ('semantic summary of the generated `eq` over the generated-code model: guard-exactness per emission site, path enumeration (exactly one check per non-ignored field), operand provenance through pattern binders, per-variant arm partition, pattern element counting',
+ 'C02': ('semantic summary of the generated `eq` over the generated-code model: guard-exactness per emission site, path enumeration (exactly one check per non-ignored field), operand provenance through pattern binders, per-variant arm partition, pattern element counting, pairwise injectivity of derived binder names',
          'For all inputs: single fn eq; early-false checks + true; one check per non-ignored field in declaration order with self/other accesses of that same field (self first), method iff given; one arm per variant with same-variant patterns and else-false; positional patterns cannot shift. Laws follow as a lemma for lawful field comparisons.', '§6 C02'),
- 'C03': ('semantic summary of cmp/partial_cmp: collect-then-emit discipline (BTreeMap keyed by rank, default isize::MIN+index, duplicate rejection, ascending iteration), decisive-or-continue statement normal form, operand provenance, all-unit flag analysis, Ord/PartialOrd companion and dispatcher consistency',
+ 'C03': ('semantic summary of cmp/partial_cmp: collect-then-emit discipline (BTreeMap keyed by rank, default isize::MIN+index, duplicate rejection, ascending iteration), decisive-or-continue statement normal form, operand provenance, all-unit flag analysis, Ord/PartialOrd companion and dispatcher consistency, pairwise injectivity of derived binder names',
          'For all inputs the comparison is lexicographic over non-ignored fields in ascending rank with self first and method iff given; PartialOrd None propagates; Ord and PartialOrd agree when both are educed.', '§6 C03'),
  'C05': ('semantic summary of the generated `hash`: per-field feed statements with guard-exactness and path enumeration, variant-index provenance (enumerate index of the variants loop), uses of `state`',
          'For all inputs the hasher is fed the variant index (enums) and exactly the non-ignored fields once each in declaration order through the method iff given; nothing else.', '§6 C05'),
@@ -92,7 +92,7 @@ def main():
             'add_only': True,
         },
         'engines': [
-            {'name': 'educe-sa', 'path': 'sa/ + tools/synjson + tools/mirfacts', 'serves_properties': sorted(CHECKS), 'kind_free_text': 'repository-specific static analyser: syn-based source model, site/context walker, generated-code model (template grammar), rule engine in Python; rustc_private MIR fact driver (nightly) for the type-resolved cross-checks of C16/C17'},
+            {'name': 'educe-sa', 'path': 'sa/ + tools/synjson + tools/mirfacts', 'serves_properties': sorted(CHECKS), 'kind_free_text': 'repository-specific static analyser: syn-based source model with desugaring / helper-inlining / term canonicalisation passes, site/context walker, generated-code model (template grammar), rule engine in Python; rustc_private MIR fact driver (nightly) for the type-resolved cross-checks of C16/C17'},
         ],
         'checks': checks,
         'not_applicable': na,
